@@ -94,7 +94,8 @@ XalanEXSLTFunctionAlign::execute(
 
     if (theTargetStringLength == thePaddingStringLength)
     {
-        return XObjectPtr(args[0]);
+        // The result is always a string, whatever the type of the argument...
+        return executionContext.getXObjectFactory().createString(theTargetString);
     }
     else
     {
